@@ -276,6 +276,7 @@ pub fn after_server_frame(sim: &mut Sim, ticked: bool, t: u32, injected: bool) {
     }
     let Some(snap) = sim.snaps.get(&t).cloned() else { return };
     let period = sim.prof.app.period.max(1);
+    let mut split_probe = 0u64;
     for c in 0..sim.clients.len() {
         let Some(vis) = snap.vis[c].clone() else { continue };
         let Some(sess) = sim.clients[c].sess.as_ref() else { continue };
@@ -347,6 +348,9 @@ pub fn after_server_frame(sim: &mut Sim, ticked: bool, t: u32, injected: bool) {
                 }
             }
         }
+        if muts.len() >= 2 {
+            split_probe += 1;
+        }
         // C10: packing of this tick's mutate messages.
         let c10 = check_packing(sim, c, &muts, &snap, t);
         let sess = sim.clients[c].sess.as_mut().unwrap();
@@ -359,6 +363,9 @@ pub fn after_server_frame(sim: &mut Sim, ticked: bool, t: u32, injected: bool) {
         for v in c10 {
             sim.violate("C10", "packing", v);
         }
+    }
+    if split_probe > 0 {
+        *sim.stats.probes.entry("message_split_2plus".into()).or_insert(0) += split_probe;
     }
 }
 
@@ -567,6 +574,7 @@ pub fn after_client_frame(sim: &mut Sim, c: usize) {
     let (u, held, tc, ts) = client_view(&sim.clients[c].app);
     let mut v: Vec<(&'static str, &'static str, String)> = vec![];
     let mut f20_hits = 0u64;
+    let mut conf_commit: Option<BTreeMap<u64, BTreeSet<u32>>> = None;
     let sid = sim.clients[c].sess.as_ref().unwrap().id;
     let authorized = sim.clients[c].sess.as_ref().unwrap().authorized;
     let _ = authorized;
@@ -815,6 +823,61 @@ pub fn after_client_frame(sim: &mut Sim, c: usize) {
         v.push(("C12", "tick_notification_spurious", format!("client {c}: MutateTickReceived without tracking")));
     }
 
+    // ---- C12 end to end: the per-entity confirmation history answers like a plain set of the ticks
+    // whose messages were applied to the entity (update messages in order, then mutate messages newest
+    // first; an older mutate message for an entity that is already ahead leaves no trace).
+    {
+        let mut conf = sess.conf.clone();
+        for m in sess.upd_msgs.iter().take(sess.upd_delivered).skip(sess.upd_applied) {
+            for d in &m.despawns {
+                conf.remove(d);
+            }
+            for (e, _) in m.removals.iter() {
+                conf.entry(*e).or_default().insert(m.tick);
+            }
+            for (e, _) in m.changes.iter() {
+                conf.entry(*e).or_default().insert(m.tick);
+            }
+        }
+        let mut applied: Vec<&MutMeta> = newly_applied.iter().map(|id| &sess.muts[id]).collect();
+        applied.sort_by(|a, b| b.tick.cmp(&a.tick));
+        for m in applied {
+            for (e, _) in &m.ents {
+                if let Some(set) = conf.get_mut(e) {
+                    let newest = set.iter().next_back().copied().unwrap_or(0);
+                    if m.tick > newest {
+                        set.insert(m.tick);
+                    }
+                }
+            }
+        }
+        let w = sim.clients[c].app.world();
+        for (se, (cc, _, _, lt)) in &held {
+            let Some(set) = conf.get(se) else { continue };
+            let Some(h) = w.get::<bevy_replicon::client::confirm_history::ConfirmHistory>(Entity::from_bits(*cc)) else { continue };
+            if set.iter().next_back() != Some(lt) {
+                // The model lost track (e.g. tick-0 ambiguity): do not judge this entity.
+                continue;
+            }
+            for d in 0..=70u32 {
+                if d > *lt {
+                    break;
+                }
+                let t = lt - d;
+                let expect = d >= 64 || set.contains(&t);
+                let got = h.contains(RepliconTick::new(t));
+                if got != expect {
+                    v.push(("C12", "entity_history_contains", format!("client {c}: entity {se:#x} (confirmed tick {lt}): ConfirmHistory::contains({t}) = {got}, ticks applied to it are {:?}", set.iter().rev().take(8).collect::<Vec<_>>())));
+                    break;
+                }
+            }
+            if h.contains(RepliconTick::new(lt + 1)) {
+                v.push(("C12", "entity_history_contains", format!("client {c}: entity {se:#x}: ConfirmHistory::contains({}) is true beyond the confirmed tick {lt}", lt + 1)));
+            }
+        }
+        conf_commit = Some(conf);
+    }
+
     // ---- C04 / C05: observed server events
     let mut seen_now: Vec<(SEv, u32)> = vec![];
     let mut trig_seen: BTreeSet<u32> = BTreeSet::new();
@@ -911,6 +974,9 @@ pub fn after_client_frame(sim: &mut Sim, c: usize) {
     }
     // ---- commit bookkeeping
     let sess = sim.clients[c].sess.as_mut().unwrap();
+    if let Some(conf) = conf_commit {
+        sess.conf = conf;
+    }
     sess.last_u = u;
     for (_, (cc, _, _, lt)) in &held {
         sess.last_conf.insert(*cc, *lt);
